@@ -8,7 +8,7 @@ CLAIMED['C02'] = dict(
     text='Proof (per function, modular): every loader function and read_inline/crossline/zslice/subvolume/volume/subplane/get_trace return exactly '
          'the slice of the spec-defined volume V they denote, for all cube shapes and arguments, per valid (rate, blockshape) setting '
          '(quick: representative settings; thorough: all 401). Also under contract: both diagonal families, coordinate lookup (coord_to_index) and reads by line number, subvolume[a:b:c, ...] on ascending axes, accessor construction. '
-         'z-slice and trace by sample time/depth (exact-real axis). xarray adapter and tools.cube: not under contract.',
+         'z-slice and trace by sample time/depth (exact-real axis), tools.cube. xarray adapter: not under contract.',
     note='AX-ZFP-DEC, AX-NP-INDEX, AX-FILE, AX-POOL, AX-LRU assumed; reader object state: SgzReader.__init__ is under contract for the file-handle route (ReaderInit: state = mk_reader state for conforming files); ENGINE pyvc + z3/cvc5 trusted')
 CLAIMED['C07'] = dict(
     text='Proof: ghost read log of every loader function / read method under contract equals exactly the ranges the property allows '
@@ -44,7 +44,7 @@ CLAIMED['C10'] = dict(
 CLAIMED['C13'] = dict(
     text='Proof of the subscript semantics of the accessors (ordinal slices/ints with negative wrap; line-number slices with all default combinations on ascending and '
          'descending axes; len) against spec functions transcribed from segyio/CPython. Accessor construction binds each accessor to the count, axis and read method of its kind (those read methods are under the value contracts of C02/C04); subvolume[a:b:c, ...] by line number with steps. '
-         'bin/text, attributes, tools.* are not covered by this check.',
+         'The emulator object: every documented attribute is the accessor / reader method of its kind on the same handle (2-D: line accessors refuse); tools.cube, tools.dt. Contents of bin / text objects (segyio Field) are not covered.',
     note='AX-SEGYIO-ACC transcription (hash pinned); values_function abstract; line numbers >= 1')
 CLAIMED['C17'] = dict(
     text='Proof (fault mode: any range read may raise or come back short/empty): for the range-read primitives + choke point (file and blob) and every loader function / '
